@@ -146,6 +146,28 @@ def run (G : Grammar) (A : Auto) : Nat → Config → Res
 /-- `parse`: bottom entry with state 0, whole input pending. -/
 def init (w : List Nat) : Config := ⟨[⟨0, .leaf 0⟩], w, []⟩
 
+/-- Reduce-only run on a LOCAL stack of states `L` (top first) under the fixed lookahead `a`:
+`true` iff within the fuel the machine stops reducing (no action / shift / accept / missing goto)
+or a reduction needs to look at or below the bottom element of `L`. Used by the termination
+check: the consecutive reductions of the real machine are bounded when all local runs from
+`[s, q]` (`q → s` an edge) and from `[0]` return `true`. -/
+def lrun (G : Grammar) (A : Auto) (a : Nat) : Nat → List Nat → Bool
+  | 0, _ => false
+  | _ + 1, [] => true
+  | n + 1, s :: L =>
+    match A.action s a with
+    | some (.reduce p) =>
+      match G.prods[p]? with
+      | none => true
+      | some pr =>
+        match (s :: L).drop pr.rhs.length with
+        | [] => true
+        | s' :: r =>
+          match A.goto s' pr.lhs with
+          | none => true
+          | some s'' => lrun G A a n (s'' :: s' :: r)
+    | _ => true
+
 end Abs
 
 /-- What a FIRST function must satisfy: `first α a` contains the first token of every string
